@@ -434,7 +434,11 @@ def gen(rng, tier):
                 if not progressed:
                     break
             value_cases = picked
-    return structural_cases + value_cases
+    cases = structural_cases + value_cases
+    for n_, c_ in enumerate(cases):
+        if n_ % 3 == 2:
+            c_["badname"] = BADNAMES[(n_ // 3) % len(BADNAMES)]
+    return cases
 
 
 # ---- recorded fuzz of the parser entry points (harness/gentables.py, on every run) -----------------------
